@@ -12,6 +12,7 @@ Cross-operator laws of the BMOC algebra (C07, C08), all corollaries of the four 
 -/
 import HpxVerif.Lemmas.BmocOr2
 import HpxVerif.Lemmas.BmocCanon
+import HpxVerif.Lemmas.BmocXor3
 
 namespace Hpx.Bmoc
 
@@ -74,5 +75,48 @@ theorem bmoc_or_comm_moc (A B : BMOC) (D : Nat) (hmax : max A.dmax B.dmax = D) (
     rw [or3_sem_all D hD _ _ hwA hwB hrA hrB l1 h1 x, or3_sem_all D hD _ _ hwB hwA hrB hrA l2 h2 x, tri_max_comm])
   unfold BMOC.or
   simp only [h1, h2, hmax, hmax', Option.map_some, e, Option.isSome_some, and_self]
+
+theorem tri_xor_comm' (s t : Tri) : Tri.xor s t = Tri.xor t s := by
+  cases s <;> cases t <;> rfl
+
+/-- **`xor` is commutative on plain MOCs as a structural equality**: `a ^ b` and `b ^ a` are the same entries -/
+theorem bmoc_xor_comm_moc (A B : BMOC) (D : Nat) (hmax : max A.dmax B.dmax = D) (hD : D ≤ 29)
+    (hwA : WF D A.cells) (hwB : WF D B.cells) (hrA : ∀ c ∈ A.cells, InR c) (hrB : ∀ c ∈ B.cells, InR c)
+    (mA : ∀ c ∈ A.cells, c.full = true) (mB : ∀ c ∈ B.cells, c.full = true) :
+    BMOC.xor A B = BMOC.xor B A ∧ (BMOC.xor A B).isSome := by
+  obtain ⟨l1, h1⟩ := xorCells_some D hD _ _ hwA hwB hrA hrB
+  obtain ⟨l2, h2⟩ := xorCells_some D hD _ _ hwB hwA hrB hrA
+  obtain ⟨w1, r1⟩ := xor_wf D hD _ _ hwA hwB hrA hrB l1 h1
+  obtain ⟨w2, r2⟩ := xor_wf D hD _ _ hwB hwA hrB hrA l2 h2
+  have af : ∀ (s : Tri), s ≠ .part → (s = .abs ∨ s = Tri.ofFlag true) := by
+    intro s hs; cases s
+    · exact Or.inl rfl
+    · exact absurd rfl hs
+    · exact Or.inr rfl
+  have f1 : ∀ c ∈ l1, c.full = true :=
+    flags_of_sem w1 (fun x => af _ (xor_moc D hD _ _ hwA hwB hrA hrB mA mB l1 h1 x).1)
+  have f2 : ∀ c ∈ l2, c.full = true :=
+    flags_of_sem w2 (fun x => af _ (xor_moc D hD _ _ hwB hwA hrB hrA mB mA l2 h2 x).1)
+  have hmax' : max B.dmax A.dmax = D := by rw [Nat.max_comm]; exact hmax
+  have e := pack_eq_of_same_set D hD l1 l2 w1 w2 r1 r2 f1 f2 (fun x _ => by
+    rw [xor3_sem_all D hD _ _ hwA hwB hrA hrB l1 h1 x, xor3_sem_all D hD _ _ hwB hwA hrB hrA l2 h2 x, tri_xor_comm'])
+  unfold BMOC.xor
+  simp only [h1, h2, hmax, hmax', Option.map_some, e, Option.isSome_some, and_self]
+
+theorem tri_xor_as_or_and_not (s t : Tri) : Tri.xor s t = Tri.min (Tri.max s t) (Tri.not (Tri.min s t)) := by
+  cases s <;> cases t <;> rfl
+
+/-- **`xor` in terms of the other three operators, with partial flags**: `a xor b` denotes the same three-valued set as
+    `(a or b) and not (a and b)` -/
+theorem xor_eq_or_and_not (D : Nat) (hD : D ≤ 29) (a b : List Cell) (ha : WF D a) (hb : WF D b)
+    (hra : ∀ c ∈ a, InR c) (hrb : ∀ c ∈ b, InR c) (lo : List Cell) (hlo : orCellsUnpacked a b = some lo)
+    (lx : List Cell) (hlx : xorCellsUnpacked a b = some lx) (x : Nat) (hx : x < 12 * 4 ^ D) :
+    stOf D lx x = stOf D (andCells lo (notCells (andCells a b))) x := by
+  obtain ⟨wlo, _⟩ := or_wf D hD a b ha hb hra hrb lo hlo
+  have wab := (and_wf_inside D a b ha hb).1
+  have rab := and_inR D a b ha hb hra
+  obtain ⟨sn, wn, _⟩ := notCells_spec D hD _ wab rab
+  rw [xor3_sem_all D hD a b ha hb hra hrb lx hlx x, and_sem D lo _ wlo wn x,
+    or3_sem_all D hD a b ha hb hra hrb lo hlo x, sn x hx, and_sem D a b ha hb x, tri_xor_as_or_and_not]
 
 end Hpx.Bmoc
